@@ -7,6 +7,8 @@ NOTE = ("verdicts are z3 4.8.12 / z3 5.1.0 / cvc5 1.0 answers over the symgo SSA
         "every bound (lengths, unwinding, allocation, shapes) is listed per obligation in the evidence and checked, not assumed; "
         "translator validated per run by replaying reachability witnesses natively and in concrete mode; ")
 CLAIMED = {
+ "C17": ("the multi-file appendable refines one growable byte array over bounded sequences of append / set-offset / read / discard with symbolic payloads, lengths and offsets, for every chunk-boundary alignment and cache (max-open-files) size within the bounds",
+         "chunks are in-memory appendables behind the real hooks interface; the single-file appendable over os.File, compression, reopen and Copy are outside the claim; reads beyond the logical end after a rewind are unspecified (neither appendable truncates on SetOffset)", "DESIGN.md §4 C17"),
  "C01": ("soundness of verification as binding obligations: Alh/entry-digest/linear-proof binding, and the client-history chain (honest prefix, one or two adversarial state advances accepted by VerifyDualProof, then a verified read of an earlier transaction) => the accepted past transaction is the honest one; all headers, digests and proof terms symbolic, ids <= 4 (quick) / 5-6 (thorough)",
          "SHA-256 uninterpreted/collision-free/cycle-free; ECDSA signature checks and the gRPC client/server sequencing are outside the claim; completeness (honest proofs verify) is covered for the tree generators under C08 and by the repository's own tests, not re-proved here yet", "DESIGN.md §4 C01"),
  "C09": ("integrity-checked reads: value reads return the value of the entry's digest or fail for every value-log content/offset/length; sequential tx scans accept a tx only if it chains to the previous one",
